@@ -105,6 +105,32 @@ def run(db, cx):
         cx.ob("C20.1-threshold", "the yield per length is dN/dx at the mean of pre- and post-step speed",
               ok and bool(bdef), ws[0].get("rhs") if ws else "-", short(f.loc),
               why="the threshold must be tested with the same mean speed the generator uses")
+    # the two step-point records whose speeds are averaged are the parent's own: the pre-step record
+    # handed in and {particle.speed(), pos}; nothing edits them afterwards
+    for f in db.get(C + "CerenkovOffload::CerenkovOffload"):
+        recs = {}
+        for (_b, _i, e) in f.events("write"):
+            ch = e.get("path", {}).get("chain", [])
+            if e.get("path", {}).get("root") == "this" and ch and \
+                    ch[0] in ("f:" + C + "CerenkovOffload::pre_step_", "f:" + C + "CerenkovOffload::post_step_"):
+                recs.setdefault(ch[0].split("::")[-1], []).append(e)
+        prm = [p_["n"] for p_ in f.r["params"] if "OffloadPreStepData" in p_.get("cty", p_.get("ty", ""))]
+        speed_calls = [e for (_b, _i, e) in f.events("call") if e["callee"] == C + "ParticleTrackView::speed"]
+        late = [e for es in recs.values() for e in es if e.get("kind") != "ctorinit"]
+        pre_ok = [e.get("rhs", "").strip() for e in recs.get("pre_step_", [])] == prm[:1] and bool(prm)
+        post = recs.get("post_step_", [])
+        post_ok = len([e for e in post if e.get("kind") == "ctorinit"]) == 1 and bool(speed_calls) and \
+            ".speed()" in post[0].get("rhs", "") and not any(ch in post[0].get("rhs", "") for ch in "+*/")
+        cx.ob("C20.1-threshold", "the averaged speeds are the parent's own pre- and post-step speeds",
+              pre_ok and post_ok and not late,
+              "; ".join("%s %s= %s @%s" % ((e.get("lhs") or "/".join(x.split("::")[-1] for x in e["path"]["chain"])),
+                                          e.get("op", "").rstrip("="), e.get("rhs"), short(e["loc"]).split(":", 1)[1])
+                        for e in late) or "pre_step_(%s), post_step_(%s)" % (
+                            ",".join(prm), post[0].get("rhs") if post else "?"),
+              short(f.loc),
+              why="the threshold decision and the cone angle use the mean of these two speeds; a "
+                  "substituted speed (e.g. for a parent that stops in the step) requests photons "
+                  "below threshold and puts them on the wrong cone")
     # 3. executors: only charged, active tracks with a valid pre-step record
     for nm in (C + "detail::CerenkovOffloadExecutor::operator()",):
         for f in db.get(nm):
